@@ -243,12 +243,139 @@ PIPELINES.append(Pipeline('U7_Builder_add_size', units=[U_ibytes, U_iaddsz, U_it
                           replay=('c04_buffer', lambda cex, o: ['search'])))
 PIPELINES.pop()   # recursion under dfcc: kept out until the self-replacement form is settled
 
+
+# ---- U11: builders never use a pointer into the buffer after the buffer had a chance to move (ghost epochs) ------------------------------------
+# Every Builder operation that reserves space (append, append_with_zero, add_padding, reserve_space_for, add_item) may move the buffer memory
+# (Buffer::reserve_space, pipeline U2): its contract starts a new ghost epoch. A pointer obtained into the buffer is stamped with the epoch it was
+# obtained in; the contracts of the operations that write through such a pointer (placement construction, set_role_size, set_user_size,
+# set_text_size) require that the stamp is the current epoch. add_size goes through item(), which re-computes the address, and starts no epoch.
+EPOCH = """
+size_t ghost_epoch;        /* ghost: number of times the buffer memory may have moved */
+size_t ghost_item_epoch;   /* ghost: epoch in which the item pointer held by the unit was obtained */
+size_t ghost_field;        /* ghost: last size field written through the item pointer */
+#define EPOCH_OK (verif_exc == 0)   /* epochs are compared for equality only; unsigned wrap-around after 2^64 moves is not a concern */
+#define MAY_MOVE __CPROVER_assigns(ghost_epoch, verif_exc) __CPROVER_ensures(ghost_epoch == __CPROVER_old(ghost_epoch) + 1 && (verif_exc == 0 || verif_exc == EXC_buffer_is_full))
+#define FRESH_ITEM (ghost_item_epoch == ghost_epoch)
+struct Builder;
+item_size_type E_append_with_zero(struct Builder* self, const char* data, item_size_type length) __CPROVER_requires(EPOCH_OK) MAY_MOVE __CPROVER_ensures(verif_exc != 0 || __CPROVER_return_value == length + 1);
+void E_add_padding(struct Builder* self, bool self_flag) __CPROVER_requires(EPOCH_OK) MAY_MOVE;
+void E_add_item(struct Builder* self, const void* item) __CPROVER_requires(EPOCH_OK) MAY_MOVE;
+void* E_reserve_space_for(struct Builder* self, size_t size) __CPROVER_requires(EPOCH_OK) __CPROVER_assigns(ghost_epoch, ghost_item_epoch, verif_exc)
+  __CPROVER_ensures(ghost_epoch == __CPROVER_old(ghost_epoch) + 1 && (verif_exc == 0 || verif_exc == EXC_buffer_is_full) && (verif_exc != 0 || (FRESH_ITEM && __CPROVER_is_fresh(__CPROVER_return_value, size))));
+void E_add_size(struct Builder* self, item_size_type size) __CPROVER_requires(verif_exc == 0) __CPROVER_assigns();
+/* writes through the item pointer: only in the epoch the pointer was obtained in */
+void E_construct(void* item) __CPROVER_requires(verif_exc == 0 && FRESH_ITEM) __CPROVER_assigns();
+void E_set_size_field(void* item, size_t size) __CPROVER_requires(verif_exc == 0 && FRESH_ITEM) __CPROVER_assigns(ghost_field) __CPROVER_ensures(ghost_field == size);
+/* ChangesetDiscussionBuilder::current_comment(): address computed from the current buffer memory */
+ChangesetComment* E_current_comment(struct Builder* self) __CPROVER_requires(verif_exc == 0) __CPROVER_assigns(ghost_item_epoch) __CPROVER_ensures(FRESH_ITEM && __CPROVER_is_fresh(__CPROVER_return_value, sizeof(ChangesetComment)));
+"""
+ESIB = {'add_size': 'E_add_size', 'append_with_zero': 'E_append_with_zero', 'add_padding': 'E_add_padding', 'add_item': 'E_add_item'}
+E_EXC = '(verif_exc == 0 || verif_exc == EXC_length_error || verif_exc == EXC_buffer_is_full)'
+E_FRAME = ('frame', 'assigns', 'verif_exc, ghost_epoch, ghost_item_epoch, ghost_field')
+
+
+def e_prelude(derived):
+    def f(repo):
+        extra = ''
+        if derived == 'ChangesetDiscussionBuilder':
+            c = cx.extract_anon_enum_const(repo, OOB, 'no_comment')
+            extra = c.replace('static_cast<std::size_t>(-1)', 'SIZE_MAX')
+            if extra == c:
+                raise cx.ExtractError('no_comment: the constant is no longer static_cast<std::size_t>(-1)')
+        return bld_prelude(derived)(repo) + extra + EPOCH
+    return f
+
+
+def e_pipeline(name, units, contracts, enforce, replace, harness, note, maythrow=None, scenario='members'):
+    PIPELINES.append(Pipeline(name, units=units, prelude=e_prelude('ChangesetDiscussionBuilder' if 'Discussion' in name else None), contracts=contracts, enforce=enforce,
+                              replace=replace, maythrow=maythrow or {}, harness=harness + ' __CPROVER_assert(verif_exc != 0, "canary:normal"); __CPROVER_assert(verif_exc == 0, "canary:throw"); }',
+                              canaries=['canary:normal', 'canary:throw'], replay=('c04_buffer', lambda cex, o: [scenario]), note=note))
+
+
+def size_setter_contract(itemparam, limit, what):
+    return [('pre:the item pointer was obtained in the current epoch', 'requires', 'EPOCH_OK && FRESH_ITEM && __CPROVER_is_fresh(self, sizeof(*self)) && __CPROVER_is_fresh(%s, 8)' % itemparam),
+            ('post:exception class; %s that do not fit are rejected' % what, 'ensures', E_EXC + ' && (length <= %s || verif_exc == EXC_length_error)' % limit),
+            ('post:the size field carries the length including the terminator', 'ensures', 'verif_exc != 0 || ghost_field == length + 1'),
+            E_FRAME]
+
+
+U_e_addrole = Unit(OOB, 'add_role', cls='RelationMemberListBuilder', cname='Builder_add_role', selftype=SB, objs={'member': 'RelationMember'}, stub_siblings=ESIB, scalar_types=['string_size_type', 'item_size_type'],
+                   pre=[(r'member\.set_role_size\(', 'E_set_size_field(&member, ')])
+U_e_addmember = Unit(OOB, 'add_member', cls='RelationMemberListBuilder', cname='Builder_add_member', selftype=SB, sig=r'const std::size_t role_length', stub_siblings=ESIB,
+                     pre=[(r'auto\* member = reserve_space_for<osmium::RelationMember>\(\);', 'RelationMember* member = (RelationMember*)E_reserve_space_for(self, sizeof(RelationMember));'),
+                          (r'new \(member\) osmium::RelationMember\{[^}]*\};', r'E_construct(member);'),
+                          (r'add_item\(\*full_member\)', 'add_item(full_member)')],
+                     params=['item_type type', 'object_id_type ref', 'const char* role', 'const size_t role_length', 'const void* full_member'])
+ROLE_CONTRACT = size_setter_contract('member', 'max_osm_string_length', 'roles')
+e_pipeline('U11_RelationMemberListBuilder_add_role', [U_e_addrole], {'Builder_add_role': ROLE_CONTRACT}, 'Builder_add_role',
+           ['E_append_with_zero', 'E_add_padding', 'E_add_size', 'E_set_size_field'],
+           'void harness(void) { struct Builder* b; RelationMember* m; const char* role; size_t n; Builder_add_role(b, m, role, n);',
+           'the role size is written through the member pointer before the role is appended (the append may move the buffer)',
+           maythrow={'E_append_with_zero': False, 'E_add_padding': True})
+e_pipeline('U11_RelationMemberListBuilder_add_member', [U_e_addrole, U_e_addmember], {'Builder_add_role': ROLE_CONTRACT, 'Builder_add_member': [
+    ('pre', 'requires', 'EPOCH_OK && __CPROVER_is_fresh(self, sizeof(*self))'),
+    ('post:exception class; roles that do not fit are rejected', 'ensures', E_EXC + ' && (role_length <= max_osm_string_length || verif_exc != 0)'),
+    ('post:the member carries the role length', 'ensures', 'verif_exc != 0 || ghost_field == role_length + 1'),
+    E_FRAME]}, 'Builder_add_member', ['E_reserve_space_for', 'E_construct', 'E_add_size', 'E_add_item', 'Builder_add_role'],
+    'void harness(void) { struct Builder* b; item_type t; object_id_type r; const char* role; size_t n; const void* fm; Builder_add_member(b, t, r, role, n, fm);',
+    'the member is constructed and handed to add_role in the epoch its space was reserved in',
+    maythrow={'E_reserve_space_for': False, 'Builder_add_role': True, 'E_add_item': True})
+
+
+# ChangesetDiscussionBuilder: the comment under construction is addressed by its offset (F15 repair); a pointer is formed per call
+CDSIB = dict(ESIB, current_comment='E_current_comment')
+U_e_adduser = Unit(OOB, 'add_user', cls='ChangesetDiscussionBuilder', cname='Builder_add_user', selftype=SB, objs={'comment': 'ChangesetComment'}, stub_siblings=CDSIB, scalar_types=['string_size_type', 'item_size_type'],
+                   pre=[(r'comment\.set_user_size\(', 'E_set_size_field(&comment, ')])
+U_e_addtext = Unit(OOB, 'add_text', cls='ChangesetDiscussionBuilder', cname='Builder_add_text', selftype=SB, objs={'comment': 'ChangesetComment'}, stub_siblings=CDSIB,
+                   scalar_types=['changeset_comment_size_type', 'item_size_type'], pre=[(r'comment\.set_text_size\(', 'E_set_size_field(&comment, ')])
+U_e_addcomment = Unit(OOB, 'add_comment', cls='ChangesetDiscussionBuilder', cname='Builder_add_comment', selftype=SB, stub_siblings=CDSIB,
+                      params=['Timestamp date', 'user_id_type uid', 'const char* user'],
+                      pre=[(r'auto\* comment = reserve_space_for<osmium::ChangesetComment>\(\);', 'ChangesetComment* comment = (ChangesetComment*)E_reserve_space_for(self, sizeof(ChangesetComment));'),
+                           (r'new \(comment\) osmium::ChangesetComment\{[^}]*\};', r'E_construct(comment);'),
+                           (r'buffer\(\)\.written\(\) - buffer\(\)\.committed\(\)', '(self->m_buffer->m_written - self->m_buffer->m_committed)'),
+                           (r'std::strlen\(', 'verif_strlen(')])
+U_e_addctext = Unit(OOB, 'add_comment_text', cls='ChangesetDiscussionBuilder', cname='Builder_add_comment_text', selftype=SB, sig=r'const char\* text', stub_siblings=CDSIB,
+                    pre=[(r'osmium::ChangesetComment& comment = current_comment\(\);', 'ChangesetComment* comment_p = current_comment();'), (r'add_text\(comment, ', 'add_text(comment_p, '),
+                         (r'std::strlen\(', 'verif_strlen(')])
+USER_CONTRACT = size_setter_contract('comment', 'max_osm_string_length', 'user names')
+TEXT_CONTRACT = size_setter_contract('comment', '4294967294u', 'comment texts')
+e_pipeline('U11_ChangesetDiscussionBuilder_add_user', [U_e_adduser], {'Builder_add_user': USER_CONTRACT}, 'Builder_add_user', ['E_append_with_zero', 'E_add_size', 'E_set_size_field'],
+           'void harness(void) { struct Builder* b; ChangesetComment* m; const char* t; size_t n; Builder_add_user(b, m, t, n);',
+           'the user size is written through the comment pointer before the name is appended', maythrow={'E_append_with_zero': False}, scenario='discussion')
+e_pipeline('U11_ChangesetDiscussionBuilder_add_text', [U_e_addtext], {'Builder_add_text': TEXT_CONTRACT}, 'Builder_add_text', ['E_append_with_zero', 'E_add_padding', 'E_add_size', 'E_set_size_field'],
+           'void harness(void) { struct Builder* b; ChangesetComment* m; const char* t; size_t n; Builder_add_text(b, m, t, n);',
+           'the text size is written through the comment pointer before the text is appended', maythrow={'E_append_with_zero': False, 'E_add_padding': True}, scenario='discussion')
+NO_COMMENT = 'SIZE_MAX'
+e_pipeline('U11_ChangesetDiscussionBuilder_add_comment', [U_e_adduser, U_e_addcomment], {'Builder_add_user': USER_CONTRACT, 'Builder_add_comment': [
+    ('pre:no comment is open', 'requires', 'EPOCH_OK && __CPROVER_is_fresh(self, sizeof(*self)) && __CPROVER_is_fresh(self->m_buffer, sizeof(struct Buffer)) && self->m_buffer->m_committed <= self->m_buffer->m_written && '
+     'self->m_comment_offset == ' + NO_COMMENT + ' && ghost_n <= 100000 && __CPROVER_is_fresh(user, ghost_n + 1) && user[ghost_n] == 0'),
+    ('post:the open comment is remembered by its position relative to the committed data, not by address', 'ensures',
+     'verif_exc != 0 || self->m_comment_offset == __CPROVER_old(self->m_buffer->m_written) - __CPROVER_old(self->m_buffer->m_committed)'),
+    ('post:if the space or the user name is refused no comment is open (the destructor asserts that; F16)', 'ensures', 'verif_exc == 0 || self->m_comment_offset == SIZE_MAX'),
+    ('post:exception class', 'ensures', E_EXC),
+    ('frame', 'assigns', 'verif_exc, ghost_epoch, ghost_item_epoch, ghost_field, self->m_comment_offset')]}, 'Builder_add_comment',
+    ['E_reserve_space_for', 'E_construct', 'E_add_size', 'Builder_add_user', 'verif_strlen'],
+    'void harness(void) { struct Builder* b; Timestamp d; user_id_type u; const char* t; Builder_add_comment(b, d, u, t);',
+    'the comment is constructed and handed to add_user in the epoch its space was reserved in', maythrow={'E_reserve_space_for': False, 'Builder_add_user': True}, scenario='discussion')
+e_pipeline('U11_ChangesetDiscussionBuilder_add_comment_text', [U_e_addtext, U_e_addctext], {'Builder_add_text': TEXT_CONTRACT, 'Builder_add_comment_text': [
+    ('pre:a comment is open; any number of buffer moves may lie between add_comment and this call', 'requires', 'EPOCH_OK && __CPROVER_is_fresh(self, sizeof(*self)) && self->m_comment_offset != ' + NO_COMMENT +
+     ' && ghost_n <= 100000 && __CPROVER_is_fresh(text, ghost_n + 1) && text[ghost_n] == 0'),
+    ('post:the comment is closed', 'ensures', 'self->m_comment_offset == ' + NO_COMMENT),
+    ('post:exception class', 'ensures', E_EXC),
+    ('frame', 'assigns', 'verif_exc, ghost_epoch, ghost_item_epoch, ghost_field, self->m_comment_offset')]}, 'Builder_add_comment_text',
+    ['E_current_comment', 'Builder_add_text', 'verif_strlen'],
+    'void harness(void) { struct Builder* b; const char* t; Builder_add_comment_text(b, t);',
+    'the address of the open comment is computed from the current buffer memory in the call that uses it (F15: it used to be a pointer kept since add_comment)',
+    maythrow={'Builder_add_text': True}, scenario='discussion')
+
 TRUSTED = ['operator new[] succeeds', 'std::copy_n / std::fill_n (C++ standard)']
 ASSUMPTIONS = ['buffer capacities up to 2^28 bytes (object-size bound of CBMC; no loop bound depends on it)']
 NOT_DECIDED = ['CallbackBuffer', 'moved-from buffer states', 'purge_removed (see DESIGN)', 'whole builder histories as such (per-operation contracts only)']
 LEVEL_TEXT = ('Proof for the buffer bookkeeping: padded_length and calculate_capacity (aligned, minimal), commit/rollback/clear (whole-state postconditions: rollback drops only '
               'uncommitted data, clear empties the buffer, nothing else changes), reserve_space for every capacity, fill state and growth mode against the contracts of grow/grow_internal '
               '(doubling loop closed by a loop contract; buffer_is_full exactly when the buffer may not grow; exactly the requested bytes are added to the uncommitted region; the returned pointer is the '
-              'start of the reserved range in the current memory).')
-LEVEL_NOTE = ('Trusted: CBMC, extraction rules, operator new, the contracts of grow/grow_internal (assumed, not yet enforced on their bodies). Not decided: builders across moving memory (a pipeline for it '
-              'exceeded memory and time on this image; the native oracle c04_buffer sweeps every growth point and found defect F15), purge_removed, CallbackBuffer, moved-from buffers, whole builder histories.')
+              'start of the reserved range in the current memory). Proof (ghost epochs) that RelationMemberListBuilder and ChangesetDiscussionBuilder write through a pointer into the buffer '
+              'only in the epoch the pointer was obtained in - every operation that reserves space may move the memory and starts a new epoch - and that the size fields carry the '
+              'length including the terminator, over-long roles, user names and texts being rejected with length_error.')
+LEVEL_NOTE = ('Trusted: CBMC, extraction rules, operator new, the contracts of grow/grow_internal (assumed, not yet enforced on their bodies). Not decided: the byte content across a move (a memory-copy pipeline for it '
+              'exceeded memory and time on this image; the epoch pipelines decide stale-pointer freedom instead, the native oracle c04_buffer sweeps every growth point and found defect F15), purge_removed, CallbackBuffer, moved-from buffers, whole builder histories.')
